@@ -129,3 +129,12 @@ Local Open Scope string_scope.
 Theorem C16_source_thin_bodies :
   thin_of "GenericArray<T,N>" "default_boxed" = Some "Box :: < GenericArray < T , N > > :: generate (| _ | T :: default ())".
 Proof. repeat split. Qed.
+
+(* the boxed array's sequence impls define `generate` only: map / zip / fold / inverted_zip(2) of a boxed array are
+   the trait defaults over its by-value iterator (regenerated, coq/gen/GenSigs.v gen_impl_methods) *)
+Theorem C16_source_box_methods :
+  methods_of "GenericSequence<T> for Box<GenericArray<T,N>>" = Some ["generate"] /\
+  methods_of "FunctionalSequence<T> for Box<GenericArray<T,N>>" = Some [] /\
+  methods_of "IntoIterator for Box<GenericArray<T,N>>" = Some ["into_iter"] /\
+  methods_of "FromIterator<T> for Box<GenericArray<T,N>>" = Some ["from_iter"].
+Proof. repeat split. Qed.
